@@ -789,7 +789,30 @@ pub proof fn lemma_comb_rel(a: Screen, b: Screen, c: char)
 }
 
 // ---- define_charset (C20): the MAPS table (lazy_static HashMap<&str,[char;256]>) as an abstract lookup -------
-pub uninterp spec fn maps_lookup(code: Seq<char>) -> Option<[char; 256]>;
+pub uninterp spec fn ibmpc_map() -> [char; 256];
+pub uninterp spec fn vax42_map() -> [char; 256];
+/// the designator table as documented (pyte / console_codes): B = Latin-1, 0 = VT100 graphics, U = IBM PC (CP437), V = VAX42.
+/// The MAPS initialiser of src/charset.rs is verified against this in unit `tables`.
+pub open spec fn maps_lookup(code: Seq<char>) -> Option<[char; 256]> {
+    if code == "B"@ { Some(lat1_map()) } else if code == "0"@ { Some(vt100_map()) } else if code == "U"@ { Some(ibmpc_map()) }
+    else if code == "V"@ { Some(vax42_map()) } else { None }
+}
+/// TRUSTED (std): `&str` hashes and compares by content; equal iff the character sequences are
+#[verifier::external_body]
+pub proof fn axiom_str_key_model()
+    ensures vstd::std_specs::hash::obeys_key_model::<&'static str>() {}
+#[verifier::external_body]
+pub proof fn axiom_str_ext2(a: &str, b: &str)
+    ensures (a@ == b@) == (a == b) {}
+/// the four constant tables of src/charset.rs as values (`LAT1_MAP` etc. are `[char; 256]` consts, Copy)
+#[verifier::external_body]
+pub fn const_LAT1_MAP() -> (r: [char; 256]) ensures r == lat1_map() { unimplemented!() /* original expression: LAT1_MAP */ }
+#[verifier::external_body]
+pub fn const_VT100_MAP() -> (r: [char; 256]) ensures r == vt100_map() { unimplemented!() /* original expression: VT100_MAP */ }
+#[verifier::external_body]
+pub fn const_IBMPC_MAP() -> (r: [char; 256]) ensures r == ibmpc_map() { unimplemented!() /* original expression: IBMPC_MAP */ }
+#[verifier::external_body]
+pub fn const_VAX42_MAP() -> (r: [char; 256]) ensures r == vax42_map() { unimplemented!() /* original expression: VAX42_MAP */ }
 #[verifier::external_body]
 pub fn maps_has(code: &str) -> (r: bool)
     ensures r == maps_lookup(code@).is_some(),
